@@ -19,15 +19,27 @@ PID = 'C07'
 TOL = 1e-9          # |model - real| <= TOL * max(|model|, |real|, scale of the axis bounds)
 SLACK = 1e-12       # in-domain slack (relative to the bound scale) for the non-noisy methods
 THEOREMS = [
-    'len_eq_size', 'dims_eq', 'requires_grad_all',
-    'linspace_mem_Icc', 'linspace_one', 'cheb1_mem_Icc', 'cheb2_mem_Icc', 'cheb2noisy_mem_Icc',
-    'logspace_mem_Icc', 'expspace_mem_Icc', 'uniform_mem_Ico', 'lhs_mem_Icc', 'lhs_one_per_stratum',
-    'mesh_getElem', 'grid_is_product', 'grid_is_product_2d', 'grid_is_product_3d', 'mesh_length', 'mesh_col_length',
-    'deterministic', 'fresh_uniform', 'fresh_noisyS', 'fresh_noisyT', 'fresh_noisy3', 'fresh_cheb2noisy',
-    'defaultStd_pos', 'nd_std_pos', 'nd_exp_std_nonneg', 'nd_exp_std_zero_witness', 'fresh_lhs',
-    'spherical_r_mem', 'spherical_phi_mem_Ico', 'spherical_theta_mem', 'spherical_fresh_r',
-    'spherical_operands_ok', 'spherical_unclamped_exceeds_one', 'cheb2_denominator_ne_zero',
-    'linspace_denominator_ne_zero', 'log_operands_pos', 'exp_operands_pos', 'ctorOk_log_pos', 'ctorOk_sph',
+    # tensor count, lengths, requires_grad, determinism (all five classes behind `run`)
+    'dims_eq', 'len_eq_size', 'requires_grad_all', 'deterministic',
+    # in-domain: node formulas, then assembled per class
+    'linspace_mem_Icc', 'linspace_one', 'linspace_endpoints', 'cheb1_mem_Icc', 'cheb2_mem_Icc', 'cheb2noisy_mem_Icc',
+    'logspace_mem_Icc', 'expspace_mem_Icc', 'uniform_mem_Ico', 'lhs_mem_Icc',
+    'gen1d_in_domain', 'gen2d_in_domain', 'gen3d_in_domain', 'genNd_in_domain',
+    # Latin hypercube stratification
+    'lhs_one_per_stratum', 'lhsPoint_stratum_iff',
+    # grid = tensor product (N-D by induction; 2-D / 3-D readings; the classes return meshes)
+    'grid_is_product', 'grid_is_product_2d', 'grid_is_product_3d', 'mesh_length', 'mesh_col_length', 'mesh_mem',
+    'gen2d_is_mesh', 'gen3d_is_mesh', 'genNd_is_mesh',
+    # freshness (injectivity in this call's draws) and the noise scales it needs
+    'fresh_uniform', 'fresh_noisyS', 'fresh_noisyT', 'fresh_noisy3', 'fresh_gen1d', 'fresh_cheb2noisy',
+    'fresh_cheb2noisy_first', 'fresh_cheb2noisy_last', 'defaultStd_pos', 'std3_pos', 'nd_std_pos',
+    'nd_exp_std_nonneg', 'nd_exp_std_pos', 'nd_exp_std_zero_witness', 'nd_uniform_axis_constant',
+    # spherical
+    'spherical_r_mem', 'spherical_theta_mem', 'spherical_phi_mem_Ico', 'spherical_fresh_r', 'spherical_operands_ok',
+    'spherical_unclamped_exceeds_one',
+    # no-NaN: operands stay in the domain of their operation; constructor guards
+    'linspace_denominator_ne_zero', 'cheb1_denominator_ne_zero', 'cheb2_denominator_ne_zero',
+    'cheb2_single_node_degenerate', 'log_operands_pos', 'exp_operands_pos', 'ctorOk_log_pos', 'ctorOk_sph',
 ]
 
 KF_ZERO_DENOM = 'GeneratorSpherical/zero-denominator'
@@ -44,6 +56,7 @@ CLASSES = ['g1', 'g2', 'g3', 'nd', 'sph']
 NOISY_NAMES = {'equally-spaced-noisy', 'log-spaced-noisy', 'chebyshev2-noisy'}
 CHEB2 = {'chebyshev2', 'chebyshev2-noisy'}
 LOGM = {'log-spaced', 'log-spaced-noisy'}
+FIXED_NAMES = {'equally-spaced', 'log-spaced', 'chebyshev', 'chebyshev1', 'chebyshev2', 'exp-spaced'}
 
 
 # ----------------------------------------------------------------------------------------------- transport
@@ -385,10 +398,11 @@ def classify(script):
     for (m, n, a, b) in axis_info(script):
         if c == 'g1':
             noisy = m in NOISY_NAMES
-            rep = 'fresh' if (noisy or m == 'uniform') else None if m == 'latin-hypercube' else 'same'
+            rep = 'fresh' if (noisy or m == 'uniform') else 'same' if m in FIXED_NAMES else None
         elif c in ('g2', 'g3'):
             noisy = m in NOISY_NAMES
-            rep = 'fresh' if noisy else None if m == 'latin-hypercube' else 'same'
+            # 'latin-hypercube' (fresh per call in 1-D, drawn once by the 2-D/3-D constructors): the property makes no claim
+            rep = 'fresh' if noisy else 'same' if m in FIXED_NAMES else None
         else:
             noisy = bool(script['noisy'])
             # interpretation fixed in DESIGN.md: the N-D 'uniform' axis is drawn once with zero noise scale -> fixed
@@ -530,10 +544,10 @@ def min_n(method):
 def scripts(tier, seed, accepted):
     rng = random.Random(seed)
     sizes = [1, 2, 3, 8] if tier == 'quick' else list(range(1, 65))
-    small = [1, 2, 3, 5]
+    small = [1, 2, 3, 5] if tier == 'quick' else [1, 2, 3, 5, 7]
     out = []
     ncalls = lambda: rng.choice([2, 3])
-    nb = 3 if tier == 'quick' else 2
+    nb = 3
 
     def fill(n_main, method, k, pos):
         """grid with the main size at position pos, small sizes elsewhere (respecting cheb2's n >= 2)"""
@@ -561,8 +575,8 @@ def scripts(tier, seed, accepted):
             for n in sizes:
                 if n < min_n(m):
                     continue
-                for bi in range(nb if tier == 'quick' else 1):
-                    pos = rng.randrange(k) if tier == 'quick' else (n + bi) % k
+                for bi in range(nb if tier == 'quick' else k):
+                    pos = rng.randrange(k) if tier == 'quick' else bi
                     bs = pick_bounds(rng, m, k)
                     if tier == 'quick' and bi < len(BOUNDS):
                         bs[pos] = BOUNDS[bi]
@@ -575,7 +589,7 @@ def scripts(tier, seed, accepted):
             for n in sizes:
                 if n < min_n(m):
                     continue
-                for bi in range(2 if tier == 'quick' else 1):
+                for bi in range(2):
                     k = rng.choice([1, 2, 2, 3, 4])
                     pos = rng.randrange(k)
                     ms = [rng.choice(accepted['nd']) for _ in range(k)]
@@ -597,6 +611,27 @@ def scripts(tier, seed, accepted):
             for bi in range(nb):
                 lo = [0.0, 0.5, rng.uniform(0, 5)][bi % 3]
                 out.append(dict(cls='sph', method=m, n=n, a=lo, b=lo + [1.0, 2.5, rng.uniform(0.05, 4)][bi % 3], ncalls=ncalls()))
+    out += edge_scripts(accepted)
+    return out
+
+
+def edge_scripts(accepted):
+    """boundary draws forced through torch.rand (the model is driven with the same recorded values):
+    spherical a = b = 0 (|z| would be 1 + 1e-6 without the clamp), single zero coordinates, a denormal; uniform
+    draws 0 and 1 - 2^-53 for the 1-D methods that consume torch.rand.  Never a = b = c = 0 (see KF_ZERO_DENOM)."""
+    top = 1.0 - 2.0 ** -53
+    out = []
+    for m in accepted['sph']:
+        out.append(dict(cls='sph', method=m, n=5, a=0.5, b=2.0, ncalls=2,
+                        forced=[{0: [0.0, 0.0, 0.3, 0.0, top], 1: [0.0, 0.2, 0.0, 0.0, top], 2: [0.7, 0.0, 0.0, 1e-300, top],
+                                 3: [0.0, top, 0.5, 0.25, 0.75]}, None]))  # index = n-th torch.rand of the call
+    for m in accepted['g1']:
+        if m in ('uniform', 'chebyshev2-noisy', 'latin-hypercube'):
+            for a, b in [(0.0, 1.0), (-2.5, -0.5)]:
+                out.append(dict(cls='g1', method=m, n=3, a=a, b=b, noise=None, ncalls=2, forced=[{0: [0.0, top, 0.5]}, None]))
+    if 'chebyshev2-noisy' in accepted['g2']:
+        out.append(dict(cls='g2', method='chebyshev2-noisy', grid=[3, 2], mins=[-1.0, 0.0], maxs=[1.0, 2.0], ncalls=2,
+                        forced=[{0: [0.0, top, 0.5], 1: [top, 0.0]}, None]))
     return out
 
 
